@@ -313,8 +313,11 @@ def v2_property(pid, tier, cfgs, cont, nontrivial, rule, level="model_checking",
 
 
 def summarize(pid, tr):
-    last = [e for e in tr if e["e"] in ("Q", "QA", "A", "Starved", "Deadline", "Leak", "NoErr", "SentAfterBad", "EV", "StopHang", "CancelHang", "GraceHang", "OutGrew", "HandleAfterStop", "Taken")]
-    return "; ".join("%s %s" % (e["e"], e.get("held") or e.get("note") or "") for e in last[-3:]) + " (%d events)" % len(tr)
+    last = [e for e in tr if e["e"] in ("Q", "QA", "A", "Starved", "Deadline", "Leak", "NoErr", "SentAfterBad", "EV", "StopHang", "CancelHang", "GraceHang", "OutGrew", "HandleAfterStop",
+                                        "AddRet", "RmvRet", "StopRet", "GraceRet", "OC", "EC")]
+    if not last:
+        last = [e for e in tr if e["e"] in ("R", "L")]
+    return "; ".join(("%s %s" % (e["e"], e.get("held") or e.get("note") or (("p=%s" % e["p"]) if e.get("p") else ""))).strip() for e in last[-4:]) + " (%d events)" % len(tr)
 
 
 # ------------------------------------------------------------------------------------------------ properties
